@@ -461,44 +461,29 @@ fn emit_body<'tcx>(tcx: TyCtxt<'tcx>, krate: &str, ldid: LocalDefId, body: &Body
 
     // blocks
     j.key("blocks");
+    cx.blocks(&mut j);
+
+    // promoted constants (`&Enum::Variant`, `&[..]`): small bodies whose `_0` is the value
+    j.key("promoted");
     j.arr_begin();
-    for (_bb, data) in body.basic_blocks.iter_enumerated() {
-        j.obj_begin();
-        if data.is_cleanup {
-            j.boolean("c", true);
-        }
-        j.key("s");
-        j.arr_begin();
-        for st in &data.statements {
-            match &st.kind {
-                StatementKind::Assign(bx) => {
-                    let (lhs, rv) = &**bx;
-                    j.obj_begin();
-                    j.key("l");
-                    cx.place(&mut j, lhs);
-                    j.key("r");
-                    cx.rvalue(&mut j, rv);
-                    j.num("ln", line_of(tcx, st.source_info.span) as i128);
-                    j.obj_end();
+    {
+        let (_, promoted) = tcx.mir_promoted(ldid);
+        if !promoted.is_stolen() {
+            let promoted = promoted.borrow();
+            for pb in promoted.iter() {
+                let pcx = Cx { tcx, body: pb, def: ldid, env: cx.env };
+                j.obj_begin();
+                j.key("locals");
+                j.arr_begin();
+                for decl in pb.local_decls.iter() {
+                    j.str_item(&ty_str(tcx, decl.ty));
                 }
-                StatementKind::SetDiscriminant { place, variant_index } => {
-                    j.obj_begin();
-                    j.key("l");
-                    cx.place(&mut j, place);
-                    j.key("r");
-                    j.obj_begin();
-                    j.str("k", "setdiscr");
-                    j.num("v", variant_index.as_usize() as i128);
-                    j.obj_end();
-                    j.obj_end();
-                }
-                _ => {}
+                j.arr_end();
+                j.key("blocks");
+                pcx.blocks(&mut j);
+                j.obj_end();
             }
         }
-        j.arr_end();
-        j.key("t");
-        cx.terminator(&mut j, data.terminator());
-        j.obj_end();
     }
     j.arr_end();
 
@@ -597,6 +582,51 @@ fn unescape(s: &str) -> String {
 }
 
 impl<'a, 'tcx> Cx<'a, 'tcx> {
+    fn blocks(&self, j: &mut J) {
+        let tcx = self.tcx;
+        j.arr_begin();
+        for (_bb, data) in self.body.basic_blocks.iter_enumerated() {
+            j.obj_begin();
+            if data.is_cleanup {
+                j.boolean("c", true);
+            }
+            j.key("s");
+            j.arr_begin();
+            for st in &data.statements {
+                match &st.kind {
+                    StatementKind::Assign(bx) => {
+                        let (lhs, rv) = &**bx;
+                        j.obj_begin();
+                        j.key("l");
+                        self.place(j, lhs);
+                        j.key("r");
+                        self.rvalue(j, rv);
+                        j.num("ln", line_of(tcx, st.source_info.span) as i128);
+                        j.obj_end();
+                    }
+                    StatementKind::SetDiscriminant { place, variant_index } => {
+                        j.obj_begin();
+                        j.key("l");
+                        self.place(j, place);
+                        j.key("r");
+                        j.obj_begin();
+                        j.str("k", "setdiscr");
+                        j.num("v", variant_index.as_usize() as i128);
+                        j.obj_end();
+                        j.obj_end();
+                    }
+                    _ => {}
+                }
+            }
+            j.arr_end();
+            j.key("t");
+            self.terminator(j, data.terminator());
+            j.obj_end();
+        }
+        j.arr_end();
+
+    }
+
     fn place(&self, j: &mut J, p: &Place<'tcx>) {
         let tcx = self.tcx;
         j.arr_begin();
@@ -694,8 +724,8 @@ impl<'a, 'tcx> Cx<'a, 'tcx> {
                     Const::Val(v, _) => emit_const_value(tcx, j, *v, ty),
                     Const::Unevaluated(uv, _) => {
                         j.str("item", &path(tcx, uv.def));
-                        if uv.promoted.is_some() {
-                            j.boolean("promoted", true);
+                        if let Some(p) = uv.promoted {
+                            j.num("promoted", p.as_usize() as i128);
                         }
                     }
                     Const::Ty(_, ct) => {
